@@ -308,7 +308,11 @@ func verifContactAction(name string, uuid flows.ActionUUID) flows.Action {
 // the sprint reproduces the session's contact (query based membership and
 // last-seen included).
 // cover: first-sprint, second-sprint, blocked-contact, msg-trigger, manual-trigger
-func VerifC03_SprintActions() {
+func VerifC03_SprintActions() { verifSprintActions(false) }
+
+// verifSprintActions: the scenario of VerifC03_SprintActions; with membership
+// set it is VerifC06_SprintActions' check that is made after each sprint.
+func verifSprintActions(membership bool) {
 	env := envs.NewBuilder().Build()
 	sa := verifNewAssets()
 	sa.fields = flows.NewFieldAssets([]assets.Field{&verifFieldAsset{"nick", assets.FieldTypeText}})
@@ -357,7 +361,11 @@ func VerifC03_SprintActions() {
 		seen = sess.Contact().LastSeenOn().String() // (when the triggering message was received: see VerifC06_Engine for that clause)
 	}
 	view.apply(sp.Events(), seen)
-	zzverif.Assert(verifSameSnapshot(view.render(), verifCVOf(sess.Contact(), sa).render()), "replaying the first sprint's events over the starting contact does not reproduce the session contact")
+	if membership {
+		verifCheckSprintMembership(env, sess.Contact(), groups)
+	} else {
+		zzverif.Assert(verifSameSnapshot(view.render(), verifCVOf(sess.Contact(), sa).render()), "replaying the first sprint's events over the starting contact does not reproduce the session contact")
+	}
 	zzverif.Cover("first-sprint")
 	if sess.Status() != flows.SessionStatusWaiting {
 		return
@@ -367,6 +375,22 @@ func VerifC03_SprintActions() {
 	sp, err = sess.Resume(resume)
 	zzverif.Assert(err == nil, "Resume failed")
 	view.apply(sp.Events(), resume.ResumedOn().String())
-	zzverif.Assert(verifSameSnapshot(view.render(), verifCVOf(sess.Contact(), sa).render()), "replaying the second sprint's events over the contact before the resume does not reproduce the session contact")
+	if membership {
+		verifCheckSprintMembership(env, sess.Contact(), groups)
+	} else {
+		zzverif.Assert(verifSameSnapshot(view.render(), verifCVOf(sess.Contact(), sa).render()), "replaying the second sprint's events over the contact before the resume does not reproduce the session contact")
+	}
 	zzverif.Cover("second-sprint")
+}
+
+func verifCheckSprintMembership(env envs.Environment, c *flows.Contact, groups []*flows.Group) {
+	for _, g := range groups {
+		in := c.Groups().FindByUUID(g.UUID()) != nil
+		if g.UsesQuery() {
+			want := c.Status() == flows.ContactStatusActive && g.CheckQueryBasedMembership(env, c)
+			zzverif.Assert(in == want, "query based group membership does not match the contact when the engine hands back the session")
+		} else if c.Status() != flows.ContactStatusActive {
+			zzverif.Assert(!in, "a non-active contact is still in a static group when the engine hands back the session")
+		}
+	}
 }
